@@ -11,6 +11,8 @@ R4  bounded writes into fixed arrays: no strcat/sprintf/vsprintf/gets/stpcpy; th
     capacity of its destination.
 R5  limits are tested before growth: mkstate() (maximum_mns), new_rule() (MAX_RULE).
 R6  flexend(): a non-zero status with a created output file reaches unlink(env.outfilename).
+R10 argv is only read below argc: every load of s->argv[E] in the option scanner (and of main's own argv[E]) is reached only
+    with 0 <= E < argc, decided by interpreting the function for all small (index, argc); argv[0] needs argc >= 1 only.
 R8  arrays that share a capacity grow together: for every (capacity global C, array global G) pair derived from the
     allocation sizes in the IR, each function that increases C reallocates G (with a size that reads C) on every
     returning path; the arm where an optional G is null is exempt.
@@ -1043,6 +1045,8 @@ def controls(ctx):
     expect_control(ctx, 'C16.R5', c, ['mkstate:maximum_mns', 'new_rule:MAX_RULE'])
     c = Collect(); r6(p, c, anchors=False)
     expect_control(ctx, 'C16.R6', c, ['flexend:unlink'])
+    c = Collect(); r10(p, c, anchors=False)
+    expect_control(ctx, 'C16.R10', c, ['bad_scanopt:argv[index+1]:not-below-argc', 'bad_scanopt_entry:argv[index]:not-below-argc'], must_hold=2)
     c = Collect(); r8(p, c)
     expect_control(ctx, 'C16.R8', c, ['bad_grow:cur_max:forgotten', 'bad_grow_early_return:cur_max2:late'], must_hold=3)
 
@@ -1173,6 +1177,109 @@ def r8(prog, rep, exceptions=R8_EXCEPT, floor_note=True):
     rep.note('C16.R8 capacity families derived from the IR: ' + ' | '.join(table))
     return n, table
 
+# ================================================================ R10  argv is only read below argc
+
+OPT_STRUCT = '_scanopt_t'
+
+def _argv_carriers(prog):
+    """{function: (argc slot, argv slot)} for functions that receive main's (argc, argv) pair, by propagation from main"""
+    out = {}
+    m = prog.fn('main')
+    if m is None or len(m.params) < 2: return out
+    work = [(m, 0, 1)]
+    while work:
+        f, ci, vi = work.pop()
+        if f in out: continue
+        out[f] = (('local', f.params[ci][1] + '.addr'), ('local', f.params[vi][1] + '.addr'))
+        res = Resolver(f)
+        for c in f.ins:
+            g = prog.fn(c.callee) if c.op == 'call' and isinstance(c.callee, str) else None
+            if g is None or not g.blocks: continue
+            pos = {}
+            for i, a in enumerate(c.ops):
+                d = f.def_of(flow.strip_casts(f, a)) if isinstance(a, tuple) else None
+                if d is not None and d.op == 'load':
+                    l = res.loc(d.ops[0])
+                    if l == out[f][0]: pos['c'] = i
+                    if l == out[f][1]: pos['v'] = i
+            if 'c' in pos and 'v' in pos and pos['v'] < len(g.params) and g.params[pos['v']][1]: work.append((g, pos['c'], pos['v']))
+    return out
+
+def r10(prog, rep, anchors=True):
+    """every load of argv[E] is reached only with 0 <= E < argc, decided by interpreting the function for all small
+    (index, argc): the option scanner's s->argv[..] against s->index / s->argc, and main's own argv against its argc"""
+    from common import AnalysisBroken
+    from genutil import MiniEval, EvalUnknown
+    n = 0; nev = 0
+    carriers = _argv_carriers(prog)
+    # callees must not change the cursor behind the evaluator's back
+    def stores_cursor(g):
+        r_ = Resolver(g)
+        return any(x.op == 'store' and cls(prog, r_.loc(x.ops[1])) in (('field', OPT_STRUCT, 'index'), ('field', OPT_STRUCT, 'argc'), ('field', OPT_STRUCT, 'argv')) for x in g.ins)
+    for f in fns(prog):
+        res = Resolver(f)
+        sites = []
+        for x in f.ins:
+            if x.op != 'load': continue
+            d = f.def_of(flow.strip_casts(f, x.ops[0]))
+            if d is None or d.op != 'getelementptr' or len(d.ops) != 2: continue
+            b = f.def_of(flow.strip_casts(f, d.ops[0]))
+            if b is None or b.op != 'load': continue
+            bl = res.loc(b.ops[0])
+            if cls(prog, bl) == ('field', OPT_STRUCT, 'argv'): sites.append((x, d.ops[1], 'struct'))
+            elif f in carriers and bl == carriers[f][1]: sites.append((x, d.ops[1], 'param'))
+        if not sites: continue
+        cfg = prog.cfg(f)
+        # memory cells holding index / argc in this function
+        cells = {'index': set(), 'argc': set()}
+        for x in f.ins:
+            if x.op in ('load', 'store'):
+                l = res.loc(x.ops[0] if x.op == 'load' else x.ops[1]); c = cls(prog, l)
+                if c == ('field', OPT_STRUCT, 'index'): cells['index'].add(flow._freeze(l))
+                if c == ('field', OPT_STRUCT, 'argc'): cells['argc'].add(flow._freeze(l))
+        if f in carriers: cells['argc'].add(flow._freeze(carriers[f][0]))
+        for x, idx, kind in sites:
+            n += 1
+            li = lin(f, idx, res)
+            estr = 'index%+d' % li.get(1, 0) if li and any(a != 1 for a in li) else str((li or {}).get(1, 0)) if li is not None else '?'
+            estr = estr.replace('+0', '')
+            kk = key('C16.R10', f, 'argv[%s]:not-below-argc' % estr)
+            if idx[0] == 'int':
+                # a constant element: only argv[0], the program name, is below every argc >= 1 (the domain of the rule)
+                if idx[1] == 0: rep.ok('C16.R10', '%s: argv[0]@%s - the program name; within bounds for every argc >= 1' % (f.name, x.line))
+                else: rep.fail('C16.R10', kk, where(x), '%s() reads argv[%d] without relating it to argc' % (f.name, idx[1]))
+                continue
+            for c in f.ins:
+                g = prog.fn(c.callee) if c.op == 'call' and isinstance(c.callee, str) else None
+                if g is not None and g is not f and any(stores_cursor(h) for h in [prog.fn(nm) for nm in reach_fns(prog, [g.name])] if h is not None and h.blocks) and x in cfg.reach(c):
+                    raise AnalysisBroken('C16.R10: %s() calls %s(), which changes the option cursor, before reading argv[%s]; the read cannot be related to index/argc' % (f.name, g.name, estr))
+            bad = None; hits = 0
+            try:
+                for argc in range(1, 9):
+                    for index in range(0, argc + 3):
+                        mem = {}
+                        for k_ in cells['index']: mem[k_] = index
+                        for k_ in cells['argc']: mem[k_] = argc
+                        ev = MiniEval(prog, None, max_steps=400000, max_paths=20000, memo=True, inline=False, stop=x)
+                        for o in ev.run(f, f.entry, 0, {}, mem):
+                            if o[0] != 'hit': continue
+                            nev += 1; hits += 1
+                            e = ev.val(idx, o[1])
+                            if not isinstance(e, int):
+                                raise AnalysisBroken('C16.R10: the element index of the argv read at %s is not a function of index/argc (%s)' % (where(x), e))
+                            if not (0 <= e < argc) and bad is None: bad = (index, argc, e)
+            except EvalUnknown as ex:
+                raise AnalysisBroken('C16.R10: cannot evaluate %s() up to the argv read at %s (%s)' % (f.name, where(x), ex))
+            if not hits:
+                raise AnalysisBroken('C16.R10: the argv read at %s is never reached in the evaluation of %s(); nothing was decided' % (where(x), f.name))
+            if bad:
+                rep.fail('C16.R10', kk, where(x), '%s() can read argv[%d] with argc = %d (index = %d): argv[argc] is only the terminating NULL and anything beyond lies outside the array, so e.g. an option '
+                         'that needs an argument and is the last word is dereferenced instead of diagnosed' % (f.name, bad[2], bad[1], bad[0]), replay_input='flex -P      (or -o / -D / -S as the last word)')
+            else:
+                rep.ok('C16.R10', '%s: argv[%s]@%s is reached only with 0 <= %s < argc (all index in 0..argc+2, argc in 1..8)' % (f.name, estr, x.line, estr))
+    rep.note('C16.R10: %d feasible arrivals at argv reads evaluated' % nev)
+    return n
+
 def run(ctx):
     rep = ctx.rep
     prog = ctx.flex
@@ -1190,6 +1297,7 @@ def run(ctx):
     counts['R7'] = r7(prog, rep)
     counts['R8'], r8table = r8(prog, rep)
     import genutil
+    counts['R10'] = r10(prog, rep)
     counts['R9'] = genutil.rule_param_array_loops(rep, prog, 'C16.R9', [f for f in fns(prog) if f.file and not f.file.endswith(('scan.c', 'parse.c')) and 'stage' not in f.file])
     rep.setcount('capacity_families', len(r8table))
     rep.setcount('translation_units', len(prog.modules))
@@ -1202,6 +1310,7 @@ def run(ctx):
     rep.floor('C16.R5', 2, 'mkstate, new_rule')
     rep.floor('C16.R6', 2, 'flexend unlink, check_options outfile_created')
     rep.floor('C16.R7', 800, 'constant-index addresses of fixed arrays in flex')
+    rep.floor('C16.R10', 5, 'argv reads today: scanopt x2, scanopt_err x3 (one guarded, two argv[0]), scanopt_usage argv[0], flexinit argv[0]')
     rep.floor('C16.R9', 8, 'loops over (array, count) parameter pairs in dfa.c, ecs.c, tblcmp.c')
     rep.floor('C16.R8', 38, '11 capacity families with 37 (capacity, array) pairs today; epsclosure grows current_max_dfa_size at 5 macro sites')
     rep.undecided += ['termination and crash-freedom of flex on arbitrary input',
